@@ -237,6 +237,16 @@ func (w *World) Logf(format string, a ...any) {
 	w.logMu.Unlock()
 }
 
+// Tracef appends a line to the kept log only: it is shown in traces but is not part of the digest. For events whose
+// position between two scheduler steps is the Go runtime's choice (connection closes during a shutdown).
+func (w *World) Tracef(format string, a ...any) {
+	w.logMu.Lock()
+	if w.keepLog {
+		w.lines = append(w.lines, fmt.Sprintf(format, a...))
+	}
+	w.logMu.Unlock()
+}
+
 func (w *World) Digest() string {
 	w.logMu.Lock()
 	defer w.logMu.Unlock()
